@@ -342,13 +342,18 @@ func (c *Conversation) processEncryptedSig(encryptedSig []byte, theirMAC []byte,
 		return err
 	}
 
+	// the peer's long-term key is only adopted once its signature has been verified
+	previousTheirKey := c.theirKey
+
 	sig, keyID, err := c.parseTheirKey(decryptedSig)
 	if err != nil {
+		c.theirKey = previousTheirKey
 		return err
 	}
 
 	mb := c.expectedMessageHMAC(keyID, keys)
 	if err := c.checkedSignatureVerification(mb, sig); err != nil {
+		c.theirKey = previousTheirKey
 		return err
 	}
 
